@@ -172,6 +172,8 @@ def build(repo, workdir, tus=TUS, jobs=14):
         meta['funcs'][name] = {'file': f['file'], 'line': f['line'], 'sha256': f['sha256'], 'generated': bool(f.get('generated')), 'sig': f['sig'],
                                'in_place_contract': bool(f['contract'])}
     text = '\n\n'.join(out) + '\n'
+    # linemarkers the preprocessor leaves after a multi-line macro invocation would re-map every later source location
+    text = re.sub(r'(?m)^# \d+ "[^"\n]*"[ \d]*\n', '', text)
     cpath = os.path.join(workdir, 'wencry.c')
     open(cpath, 'w').write(text)
     meta['c_sha256'] = hashlib.sha256(text.encode()).hexdigest()
